@@ -107,7 +107,8 @@ class Interp:
         self.lib = libmodels
         self.inlined = set()
         self.used_contracts = set()
-        self.abstract_hook = None            # fn(I, obj, name, args, kwargs) for abstract objects
+        from .libmodels import default_abstract_call
+        self.abstract_hook = default_abstract_call   # fn(I, obj, name, args, kwargs) for abstract objects
         self.cur_node = None
         self.cur_env = None
         from . import loops
@@ -759,6 +760,8 @@ class Interp:
         if isinstance(f, LibRef) and f.path == "builtins.super" and not args:
             ok, selfv = env.lookup(self._first_param(env.func))
             return SuperProxy(env.func.cls, selfv)
+        if isinstance(f, LibRef) and f.path == "builtins.super" and len(args) == 2:
+            return SuperProxy(args[0], args[1])
         self.cur_env = env
         self.cur_node = node
         return self.call(f, args, kwargs)
